@@ -10,4 +10,4 @@ os.makedirs(os.path.dirname(out), exist_ok=True)
 if os.path.exists(out) and os.path.getmtime(out) >= os.path.getmtime(src):
     sys.exit(0)
 cc = 'clang' if subprocess.call(['which', 'clang'], stdout=subprocess.DEVNULL) == 0 else 'gcc'
-sys.exit(subprocess.call([cc, '-O1', '-shared', '-fPIC', '-o', out, src, '-ldl']))
+sys.exit(subprocess.call([cc, '-O1', '-w', '-shared', '-fPIC', '-o', out, src, '-ldl']))
